@@ -20,7 +20,7 @@ EXPLANATION = (
     "remove_enter_idle return a bool on every path, with both outcomes present; (5) SIB: the select and zmq loops (same state machine) agree on guards, helpers and results."
     ' Added after seed round 3: (7) a registry whose stored values are int parameters (file descriptors) is queried with `in` / `is not None`, never by the truthiness of the stored value.'
     " Round 4: the Twisted wrapper catches BaseException (the reactor swallows everything else); (8) self-made registry handles come from a counter, never from the registry's size; (9) the Twisted idle timer callback lowers its flag on every normal path."
-    " Round-4 triage: (10) an idle pass calls a callback only while it is still registered; (11) a dispatch batch (select, zmq) calls a watch only while it is still the registered one; (12) twisted's doRead returns nothing; (13) the zmq poll time-out is rounded up and an empty poller sleeps; (5, restated) select / zmq dispatch an alarm after a time-out or under an explicit due test, and do not require `not ready` (no starvation); (14) fdopen()/open() of a descriptor parameter passes closefd=False (the descriptor stays its caller's)."
+    " Round-4 triage: (10) an idle pass calls a callback only while it is still registered; (11) a dispatch batch (select, zmq) calls a watch only while it is still the registered one; (12) twisted's doRead returns nothing; (13) the zmq poll time-out is rounded up and an empty poller sleeps; (5, restated) select / zmq dispatch an alarm after a time-out or under an explicit due test, and do not require `not ready` (no starvation); (14) fdopen()/open() of a descriptor parameter passes closefd=False (the descriptor stays its caller's); (1, extended) the tornado wrapper catches BaseException like the twisted one (asyncio re-raises only SystemExit / KeyboardInterrupt itself)."
 )
 NOT_DECIDED = "Exactly-once, not-before-due and due-order of alarms, watch repetition, idle-before-quiescence under all interleavings - scheduler semantics under time."
 ASSUMPTIONS = ["The behaviour of the foreign scheduling APIs on a raising callable (log and continue) is taken from their documentation and recorded in the per-class table."]
@@ -87,19 +87,22 @@ def rule_wrap(ctx: Ctx, clause="C13.1") -> RuleResult:
     # twisted: the reactor catches and logs *everything* a callback raises (SystemExit and KeyboardInterrupt included),
     # so the capturing wrapper has to catch BaseException; a narrower handler lets those end up in the reactor's log
     # while run() goes on.  (tornado sits on asyncio, which re-raises SystemExit / KeyboardInterrupt by itself.)
-    he = p.func(LOOPS["twisted"] + ".handle_exit")
-    wrappers = [f for f in p.functions.values() if f.parent is he]
-    caught = set()
-    for w_ in wrappers:
-        for n in w_.own_nodes():
-            if isinstance(n, ast.Try) and any(isinstance(x, ast.Call) and isinstance(x.func, ast.Name) and x.func.id == he.params[1] for b in n.body for x in ast.walk(b)):
-                for h in n.handlers:
-                    caught |= {"<bare>"} if h.type is None else {ast.unparse(x).split(".")[-1] for x in (h.type.elts if isinstance(h.type, ast.Tuple) else [h.type])}
-    rr.inst("twisted: wrapper catches BaseException", True, {"caught": sorted(caught)})
-    if not caught:
-        raise AnalysisError("TwistedEventLoop.handle_exit: the try around the wrapped callback was not found")
-    if not (caught & {"BaseException", "<bare>"}):
-        rr.add(finding("WRAP", he, he.node, f"the capturing wrapper of TwistedEventLoop.handle_exit catches only {sorted(caught)}: the Twisted reactor logs and swallows whatever else a callback raises (SystemExit from sys.exit(), KeyboardInterrupt), so run() carries on instead of ending with that exception", construct="twisted wrapper narrower than BaseException"))
+    # The same holds for tornado: the asyncio handle under it re-raises SystemExit / KeyboardInterrupt only and hands
+    # every other BaseException to the loop's exception handler, i.e. logs and drops it.
+    for key, host in (("twisted", "the Twisted reactor logs and swallows whatever else a callback raises (SystemExit from sys.exit(), KeyboardInterrupt)"), ("tornado", "the asyncio handle under tornado logs and drops every BaseException it does not re-raise itself (anything but SystemExit / KeyboardInterrupt)")):
+        he = p.func(LOOPS[key] + ".handle_exit")
+        wrappers = [f for f in p.functions.values() if f.parent is he]
+        caught = set()
+        for w_ in wrappers:
+            for n in w_.own_nodes():
+                if isinstance(n, ast.Try) and any(isinstance(x, ast.Call) and isinstance(x.func, ast.Name) and x.func.id == he.params[1] for b in n.body for x in ast.walk(b)):
+                    for h in n.handlers:
+                        caught |= {"<bare>"} if h.type is None else {ast.unparse(x).split(".")[-1] for x in (h.type.elts if isinstance(h.type, ast.Tuple) else [h.type])}
+        rr.inst(f"{key}: wrapper catches BaseException", True, {"loop": key, "caught": sorted(caught)})
+        if not caught:
+            raise AnalysisError(f"{key} handle_exit: the try around the wrapped callback was not found")
+        if not (caught & {"BaseException", "<bare>"}):
+            rr.add(finding("WRAP", he, he.node, f"the capturing wrapper of {he.cls.name}.handle_exit catches only {sorted(caught)}: {host}, so run() carries on instead of ending with that exception", construct=f"{key} wrapper narrower than BaseException"))
     # ExitMainLoop absorbed by run() of select/zmq (direct callbacks)
     for key in ("select", "zmq"):
         r = p.func(LOOPS[key] + ".run")
@@ -608,6 +611,7 @@ from ..mutants import Mut  # noqa: E402
 _S = "urwid/event_loop/select_loop.py"
 _A = "urwid/event_loop/asyncio_loop.py"
 MUTANTS = [
+    Mut("tornado-wrapper-catches-exception-only", "urwid/event_loop/tornado_loop.py", "TornadoEventLoop.handle_exit", "            except BaseException as exc:", "            except Exception as exc:", "WRAP|event_loop.tornado_loop.TornadoEventLoop.handle_exit"),
     Mut("zmq-watch-file-owns-descriptor", "urwid/event_loop/zmq_loop.py", "ZMQEventLoop.watch_file", "fd = os.fdopen(fd, closefd=False)", "fd = os.fdopen(fd)", "OWN|event_loop.zmq_loop.ZMQEventLoop.watch_file"),
     Mut("zmq-poll-timeout-truncated", "urwid/event_loop/zmq_loop.py", "ZMQEventLoop._loop", "self._poller.poll(math.ceil(timeout * 1000))", "self._poller.poll(timeout * 1000)", "BOUND|event_loop.zmq_loop.ZMQEventLoop._loop"),
     Mut("twisted-doread-returns-result", "urwid/event_loop/twisted_loop.py", "_TwistedInputDescriptor.doRead", "        self.cb()\n", "        return self.cb()\n", "WRAP|event_loop.twisted_loop._TwistedInputDescriptor.doRead"),
